@@ -102,6 +102,34 @@ def recover(state, shape, tail, ref, label, d):
     return None, committed
 
 
+def close_stale_handles(root):
+    """The order in which the cyclic GC finalises a dead pipeline's generators, text wrapper, buffer and raw file is not
+    specified (a raw file closed first silently discards what the wrapper still buffers). The harness owns that choice: the
+    handles the failed run left open under root are closed in the natural order (wrapper first), i.e. whatever they still
+    buffer reaches the file - as it does at interpreter exit - before the rest of the pipeline is collected."""
+    n = 0
+    for o in (root if isinstance(root, list) else open_handles(root)):
+        try:
+            o.close()
+            n += 1
+        except Exception:
+            pass
+    return n
+
+
+def open_handles(root):
+    import gc
+    import io
+    out = []
+    for o in gc.get_objects():
+        try:
+            if isinstance(o, io.TextIOWrapper) and not o.closed and str(getattr(o, 'name', '')).startswith(root):
+                out.append(o)
+        except Exception:
+            pass
+    return out
+
+
 def retry_while_alive(d, shape, tail, ref, where, ri, j):
     """The failed run's exception (and with it the suspended pipeline) is kept alive - as an interactive session, a test
     runner or plain reference cycles would - and a fresh Flow is run right away."""
@@ -116,6 +144,7 @@ def retry_while_alive(d, shape, tail, ref, where, ri, j):
             make_flow(root, shape, tail, [], (where, ri, j)).results()
         except Exception as e:
             keep.append(e)
+        stale = open_handles(root)
         label = 'fresh Flow run while the pipeline that failed in the %sstream step at resource %s row %s is still referenced' % (where, ri, j)
         pulls = []
         try:
@@ -130,10 +159,77 @@ def retry_while_alive(d, shape, tail, ref, where, ri, j):
         out = ('retry-raises', '%s: raises %s' % (label, second[1]))
     elif (second[1], second[2]) != (ref[1], ref[2]):
         out = ('retry-differs', '%s: returns rows per resource %r, uninterrupted %r' % (label, [len(x) for x in second[1]], [len(x) for x in ref[1]]))
+    close_stale_handles(stale)
+    del stale[:]
     del keep[:]
     gc.collect()
+    gc.collect()
+    if out is None:
+        # only now is the failed pipeline finalised (its generators closed, its file handle flushed and released): whatever
+        # that does must not touch the checkpoint the retry has committed in the meantime
+        r3 = run_flow(root, shape, tail)
+        if r3[0] != 'ok' or (r3[1], r3[2]) != (ref[1], ref[2]):
+            out = ('run-after-release', '%s: the retry is correct, but once the failed pipeline has been garbage-collected a later '
+                   'run %s' % (label, 'raises %s' % r3[1] if r3[0] != 'ok' else 'picks up a checkpoint that differs: rows per '
+                               'resource %r vs %r' % ([len(x) for x in r3[1]], [len(x) for x in ref[1]])))
     shutil.rmtree(root, ignore_errors=True)
     return out
+
+
+def finalised_during_retry(d, shape, tail, ref, where, ri, j):
+    """The failed pipeline is finalised (exception dropped, cyclic GC) right before the k-th file-system operation of the retry,
+    for every k: what its generators and file handle do then must not disturb the run that is in progress."""
+    import gc
+    out, n = None, 0
+    k = 0
+    while out is None:
+        root = os.path.join(d, 'fin')
+        shutil.rmtree(root, ignore_errors=True)
+        os.makedirs(root)
+        keep = []
+        gc.disable()
+        try:
+            try:
+                make_flow(root, shape, tail, [], (where, ri, j)).results()
+            except Exception as e:
+                keep.append(e)
+            stale = open_handles(root)
+
+            def release():
+                close_stale_handles(stale)
+                del stale[:]
+                del keep[:]
+                gc.collect()
+            rec = fsrec.Recorder(root, call_at=k, callback=release)
+            label = ('retry during which the pipeline that failed in the %sstream step at resource %s row %s is garbage-collected '
+                     'right before fs operation #%d' % (where, ri, j, k))
+            try:
+                with rec.active():
+                    res, dp, _ = make_flow(root, shape, tail, []).results()
+                second = ('ok', [enc_rows(r) for r in res], copy.deepcopy(dp.descriptor))
+            except Exception as e:
+                second = ('exc', core.exc_sig(e) + ': ' + str(e)[:80])
+        finally:
+            gc.enable()
+        del keep[:]
+        gc.collect()
+        nops = len(rec.ops)
+        n += 1
+        if second[0] == 'exc':
+            out = ('retry-raises/gc-during-retry', '%s: raises %s' % (label, second[1]))
+        elif (second[1], second[2]) != (ref[1], ref[2]):
+            out = ('retry-differs/gc-during-retry', '%s: returns rows per resource %r, uninterrupted %r' %
+                   (label, [len(x) for x in second[1]], [len(x) for x in ref[1]]))
+        else:
+            r3 = run_flow(root, shape, tail)
+            if r3[0] != 'ok' or (r3[1], r3[2]) != (ref[1], ref[2]):
+                out = ('run-after-retry/gc-during-retry', '%s: the retry is correct, but a later run %s' %
+                       (label, 'raises %s' % r3[1] if r3[0] != 'ok' else 'picks up a checkpoint that differs'))
+        k += 1
+        if k >= nops:
+            break
+    shutil.rmtree(os.path.join(d, 'fin'), ignore_errors=True)
+    return out, n
 
 
 def same_object_retry(d, shape, tail, ref, where, ri, j):
@@ -260,6 +356,12 @@ def check_scenario(sc):
                         note('retry-while-alive')
                         if v3:
                             V(v3[0], v3[1], {'kind': 'retry-while-alive', 'where': where, 'ri': ri, 'j': j})
+                        if j == 0 and fr[0] == 'exc':
+                            v4, cnt = finalised_during_retry(d, shape, tail, ref, where, ri, j)
+                            for _ in range(cnt):
+                                note('gc-during-retry', h(['gc-during-retry', shape, tail, where, ri, j, _]))
+                            if v4:
+                                V(v4[0], v4[1], {'kind': 'gc-during-retry', 'where': where, 'ri': ri, 'j': j})
                     note('stepfault:%s:%s' % (where, 'committed' if committed else 'uncommitted'),
                          h(['stepfault', shape, tail, where, ri, j]))
                     if v:
